@@ -146,7 +146,10 @@ Fixpoint sched_at (d : nat) (T : tcfg) (g i : nat) (when : Z) (w : world) : worl
       match d with
       | O => set_err 9 w
       | S d' =>
-          let when' := Z.max when (now_of pg w) in                      (* the clamp *)
+          (* the clamp: to the ROOT's evaluation time (the engine's current time); the parent's own clock,
+             which the root's bounds from above in every reachable state (NestedFacts.clocks_ok), is kept in
+             the maximum so that the statement "never before the parent's clock" needs no invariant *)
+          let when' := Z.max (Z.max when (now_of pg w)) (now_of 0 w) in
           let w1 := sched_local g i when' w in
           if negb (ok w1) then w1 else
           let s := gat g w1 in
@@ -313,6 +316,9 @@ Fixpoint sampled (T : tcfg) (child : nat) (now : Z) (bs : list bind) (w : world)
       sampled T child now r (if hit then sched_at (length T) T child (b_node b) now w else w)
   end.
 
+Definition sampled_if (b : bool) (T : tcfg) (child : nat) (now : Z) (bs : list bind) (w : world) : world :=
+  if b then sampled T child now bs w else w.
+
 (* single_nested_graph_propagate_schedule: the pull *)
 Definition pull (T : tcfg) (g i child : nat) (w : world) : world :=
   let nx := g_nst (gat child w) in
@@ -335,7 +341,9 @@ Section START.
       let now := now_of g w in
       let w1 := start_child (c_child c) now w in
       if negb (ok w1) then w1 else
-      let w2 := sampled T (c_child c) now (c_binds c) w1 in
+      (* the boundary consumers are sampled only for a child that comes to life while the program runs;
+         during whole-program start (the root graph is still starting) nothing is sampled *)
+      let w2 := sampled_if (g_started (gat 0 w1)) T (c_child c) now (c_binds c) w1 in
       let w3 := pull T g i (c_child c) w2 in
       if negb (ok w3) then w3 else upd_node g i set_started w3
     else start_plain T beh g i w.
